@@ -83,6 +83,9 @@ def trees(tier):
             out.append([(o, i) for o, inn in zip(outs, combo) for i in inn])
     # inner labels 0..k-1 under every parent: the shape produced by concatenating auto-indexed containers (leaves are then auto-integer indices)
     out += [[('b', 0), ('b', 1), ('a', 0), ('a', 1), ('a', 2)], [('b', 0), ('a', 0), ('a', 1)], [('a', 0), ('a', 1), ('b', 0), ('c', 0), ('c', 1)]]
+    # text inner labels whose width differs from parent to parent (each parent's leaf index has its own dtype width), widest first / last / in the middle
+    out += [[('b', 'x'), ('b', 'yy'), ('a', 'zzz')], [('b', 'zzz'), ('a', 'x'), ('a', 'yy')], [('b', 'x'), ('a', 'zzz'), ('a', 'x'), ('c', 'yy')],
+            [('bbb', 'zzz'), ('a', 'x')], [('b', 'xx', 'p'), ('b', 'y', 'qqq'), ('a', 'zzz', 'q')]]
     # depth 3 with a datetime middle level and repeated innermost labels
     mids = [(D('2020-01-01'),), (D('2020-01-01'), D('2020-01-02')), (D('2020-01-02'), D('2020-01-01'))]
     leafs = [('x',), ('x', 'y'), ('y', 'x')]
@@ -320,6 +323,7 @@ GO_SEEDS = {
     'd2': ([('a', 1), ('a', 2)], [('a', 3), ('b', 1), ('b', 2), ('a', 1), ('c', 1), ('b', 3)]),
     'd3': ([('a', 1, 'x')], [('a', 1, 'y'), ('a', 2, 'x'), ('b', 1, 'x'), ('a', 1, 'x'), ('b', 1, 'y'), ('a', 3, 'x')]),
     'd2-empty': ([], [('a', 1), ('a', 2), ('b', 1), ('a', 1)]),
+    'd2-widths': ([('a', 'x')], [('a', 'yy'), ('b', 'zzz'), ('b', 'x'), ('a', 'x'), ('cc', 'y'), ('b', 'yy')]),
 }
 READS = ['values', 'values_at_depth', 'len', 'iter', 'loc_to_iloc(last)', 'copy', 'label_widths', 'HLoc[:,last-inner]']
 
